@@ -329,7 +329,7 @@ def py_vcr_ok(text: str | None, exch: list[dict], entries: list[dict], preserve:
     if text is None:
         return False
     try:
-        doc = yaml.load(text, Loader=yaml.SafeLoader)
+        doc = yaml.load(text, Loader=yaml.SafeLoader)  # the pure-Python loader the TLA+ scanners are cross-checked against
     except Exception:
         return False
     try:
@@ -448,8 +448,11 @@ def observe_history(h: dict) -> dict:
     st = _setup()
     events, exch = build_events(st, h["events"])
     r = run_reporters(st, events)
-    return {"events": h["events"], "exch": exch, "crashAt": r["crashAt"], "crashSite": r["crashSite"], "snaps": r["snaps"],
-            "vcr": r["vcr.yaml"], "har": project_har(r["har.json"]), "junit": project_junit(r["junit.xml"])}
+    o = {"events": h["events"], "exch": exch, "crashAt": r["crashAt"], "crashSite": r["crashSite"], "snaps": r["snaps"],
+         "vcr": r["vcr.yaml"], "har": project_har(r["har.json"]), "junit": project_junit(r["junit.xml"])}
+    if "entries" in h:  # the driver's own verdict (PyYAML is slow: computed here, in the worker processes)
+        o["py"] = sorted(py_history_verdict(h, o))
+    return o
 
 
 def _expected_entries(h: dict) -> list[dict]:
@@ -634,8 +637,19 @@ def observe_string(case: dict) -> dict:
     x["checks"] = [{"name": cp("chk"), "status": cp("SUCCESS"), "hasMsg": False, "msg": []},
                    {"name": cp("chk"), "status": cp("FAILURE"), "hasMsg": True, "msg": cp(title)}]
     x["hasResp"] = True
-    return {"x": x, "crashAt": r["crashAt"], "crashSite": r["crashSite"], "vcr": r["vcr.yaml"], "har": project_har(r["har.json"]),
-            "junitOk": project_junit(r["junit.xml"])["ok"], "title": title}
+    o = {"x": x, "crashAt": r["crashAt"], "crashSite": r["crashSite"], "vcr": r["vcr.yaml"], "har": project_har(r["har.json"]),
+         "junitOk": project_junit(r["junit.xml"])["ok"], "title": title}
+    o["py"] = sorted(py_string_verdict(case, o))
+    return o
+
+
+TEXT_FIELDS = ("title", "message", "cov-description", "command")
+
+
+def vcr_judged(case: dict) -> bool:
+    """A lone surrogate is not a Unicode scalar value: YAML has no representation for it (PyYAML reads "\\uD800", libyaml
+    rejects it), so the cassette of a text field containing one is outside the judged fragment (ReportsYamlJudge!VcrJudged)."""
+    return not (case["field"] in TEXT_FIELDS and any(0xD800 <= c <= 0xDFFF for c in case["s"]))
 
 
 def py_string_verdict(case: dict, o: dict) -> set[str]:
@@ -646,7 +660,7 @@ def py_string_verdict(case: dict, o: dict) -> set[str]:
                 "checks": [{"name": "chk", "status": "SUCCESS", "message": None},
                            {"name": "chk", "status": "FAILURE", "message": o["title"]}]}]
     exact = not case["sanitize"]
-    if not py_vcr_ok(o["vcr"], [o["x"]], entries, case["preserve"], uri_exact=exact):
+    if vcr_judged(case) and not py_vcr_ok(o["vcr"], [o["x"]], entries, case["preserve"], uri_exact=exact):
         bad.add("vcr")
     if not py_har_ok(o["har"], [o["x"]], entries, case["preserve"], uri_exact=exact):
         bad.add("har")
@@ -668,7 +682,7 @@ def judge_strings(ctx: Ctx, cases: list[dict], obs: list[dict]) -> tuple[dict[in
         rows = []
         for i in idxs:
             c, o = cases[i], obs[i]
-            rows.append({"field": c["field"], "preserve": c["preserve"], "uriExact": not c["sanitize"], "x": o["x"],
+            rows.append({"field": c["field"], "s": c["s"], "preserve": c["preserve"], "uriExact": not c["sanitize"], "x": o["x"],
                          "crashAt": o["crashAt"], "crashSite": o["crashSite"] or "-",
                          "vcr": {"written": o["vcr"] is not None, "doc": [lines.add(tuple(l)) for l in split_lines(o["vcr"])]},
                          "har": o["har"], "junitOk": o["junitOk"]})
@@ -768,7 +782,7 @@ def run(ctx: Ctx) -> Outcome:
     verdict_h, states_judge_h, t_judge_h = judge_histories(ctx, hs, obs_h, "a")
     n_bad_h = 0
     for i, (h, o) in enumerate(zip(hs, obs_h)):
-        mine = py_history_verdict(h, o)
+        mine = set(o["py"])
         theirs = {c for c, _, _ in verdict_h.get(i, set())}
         if mine != theirs:
             raise tlc.TLCFailure("history %d: driver says %s, TLC says %s - machinery inconsistency (%s)" % (
@@ -812,7 +826,7 @@ def run(ctx: Ctx) -> Outcome:
     verdict_s, states_judge_s, t_judge_s = judge_strings(ctx, kept_cases, kept_obs)
     failing: dict[tuple, dict[tuple, tuple]] = {}  # (field, preserve, sanitize, comp, tag) -> {string: (case, obs, n)}
     for i, (c, o) in enumerate(zip(kept_cases, kept_obs)):
-        mine = py_string_verdict(c, o)
+        mine = set(o["py"])
         theirs = {comp for comp, _, _ in verdict_s.get(i, set())}
         if mine != theirs:
             raise tlc.TLCFailure("string case %s: driver says %s, TLC says %s - machinery inconsistency" % (
@@ -847,7 +861,9 @@ def run(ctx: Ctx) -> Outcome:
         "hazard_counts": _count(x for h in hs for hz in h["hazards"] for x in hz),
         "strings": len(strings), "string_cases": len(cases), "string_cases_judged": len(kept_cases),
         "string_cases_disagreeing": n_bad_s, "string_violations_implied_by_shorter": implied,
-        "skipped_outside_fragment": sum(skipped.values()), "skipped_reasons": skipped,
+        "skipped_outside_fragment": sum(skipped.values()) + sum(1 for c in kept_cases if not vcr_judged(c)),
+        "skipped_reasons": dict(skipped, **{"lone surrogate in a text field: cassette not judged (no YAML representation)":
+                                            sum(1 for c in kept_cases if not vcr_judged(c))}),
         "pyyaml_crosscheck_scalars": n_x, "pyyaml_crosscheck_mismatches": 0,
         "samples": [{"history": h["events"], "hazards": h["hazards"], "impl": {"crashAt": o["crashAt"], "site": o["crashSite"],
                                                                               "junit": o["junit"]["cases"]}}
